@@ -258,6 +258,46 @@ def coq_eval(imports, term, prelude='', extra_q=()):
     shutil.rmtree(d, ignore_errors=True)
     return (out if rc == 0 else 'ERROR ' + err)[-2000:].strip()
 
+def gen_build(gen_files, bridges, timeout=900):
+    """Write generated Coq files + bridge obligations into build/gen-<sha of all text>/ and compile them.
+    gen_files: list of (module name, text);  bridges: list of (name, text) importing `From Gen Require Import ...`.
+    Returns dict(dir, dir_hash, bridge_results=[(name, True | message)])."""
+    h = hashlib.sha256()
+    for n, t in list(gen_files) + list(bridges):
+        h.update(n.encode()); h.update(t.encode())
+    dh = h.hexdigest()[:16]
+    d = os.path.join(BUILD, 'gen-' + dh)
+    results = []
+    marker = os.path.join(d, '.done.json')
+    if os.path.exists(marker):
+        return json.load(open(marker))
+    tmpd = d + f'.tmp{os.getpid()}'
+    shutil.rmtree(tmpd, ignore_errors=True); os.makedirs(tmpd)
+    ok_all = True
+    for n, t in gen_files:
+        with open(os.path.join(tmpd, n + '.v'), 'w') as f: f.write(t)
+        rc, out, err = coqc(os.path.join(tmpd, n + '.v'), extra_q=[(tmpd, 'Gen')], timeout=timeout)
+        if rc != 0:
+            results.append(('generated file ' + n, 'does not compile: ' + (err or out)[-600:])); ok_all = False
+    for n, t in bridges:
+        with open(os.path.join(tmpd, n + '.v'), 'w') as f: f.write(t)
+        rc, out, err = coqc(os.path.join(tmpd, n + '.v'), extra_q=[(tmpd, 'Gen')], timeout=timeout)
+        bad = re.findall(r'\b(Admitted|admit|Axiom|Parameter|Conjecture)\b', t)
+        if rc != 0: results.append((n, 'bridge obligation fails: ' + (err or out)[-800:]))
+        elif bad: results.append((n, f'forbidden keyword {bad}'))
+        elif 'Axioms:' in out: results.append((n, 'depends on axioms: ' + out[-400:]))
+        else: results.append((n, True))
+    info = {'dir': d, 'dir_hash': dh, 'bridge_results': results}
+    # move into place (content addressed, so a concurrent identical build is equivalent)
+    if os.path.exists(d): shutil.rmtree(tmpd, ignore_errors=True)
+    else:
+        try: os.rename(tmpd, d)
+        except OSError: shutil.rmtree(tmpd, ignore_errors=True)
+    # the compiled files refer to the logical path only, so the rename is harmless; but .vo files record nothing about the directory
+    if all(r[1] is True for r in results) and os.path.isdir(d):
+        with open(marker, 'w') as f: json.dump(info, f)
+    return info
+
 # --------------------------------------------------------------------------------------------
 # known findings
 # --------------------------------------------------------------------------------------------
@@ -477,7 +517,7 @@ def drive(mod, tier, seed, replay=None):
         'checker_cmd': f'make -C {COQ} && coqc -Q {COQ} BS ' + ' '.join(mod.COQ_PROPS) + ' (Print Assumptions parsed); cases_*.v with Eval vm_compute for the correspondence',
         'trusted_base': getattr(mod, 'TRUSTED_BASE', []) + COMMON_TRUSTED,
         'theorems': theorems, 'axioms_seen': axioms,
-        'evaluations': len(cases), 'distinct_nontrivial': len(nontriv),
+        'evaluations': (mod.evals(cases, observed) if hasattr(mod, 'evals') else len(cases)), 'distinct_nontrivial': (mod.evals(cases, observed) if hasattr(mod, 'evals') else len(nontriv)),
         'rule': getattr(mod, 'RULE', ''), 'samples': samples,
         'model_vs_impl_cases': nev, 'model_vs_impl_diverging': len(diverging),
         'oracle_failures': len(fails), 'known_finding_hits': len(fails) - len(fail_idx),
